@@ -73,7 +73,12 @@ class C02(Prop):
 
     def generate(self, rng, tier, idx):
         mode = "real" if rng.random() < 0.3 else "tagged"
-        plan = gen_session(rng, tier, peer_mode=mode, nsolves=rng.choice([1, 1, 2]))
+        plan = gen_session(rng, tier, peer_mode=mode, nsolves=rng.choice([1, 1, 2]), allow_heuristic=True)
+        for op in plan["ops"]:
+            if op["op"] == "solve" and op["cfg"].get("heuristic") and mode == "real":
+                op["peer"]["solver"] = "CLARABEL"
+                op["peer"]["force_solver"] = True
+                op["cfg"]["eig"] = 0.05
         plan["ops"] += post_solve_ops(rng, plan, k=rng.choice([2, 4, 6]))
         plan["opts"] = {"oracles": ["attr_primal", "handles", "primal", "immut"]}
         return plan
